@@ -784,6 +784,10 @@ class Folder:
                 mem = ci.enum_members()
                 if name in mem:
                     return EV(ci, name, mem[name])
+                if name == '__members__':
+                    return {k_: EV(ci, k_, v_) for k_, v_ in mem.items()}
+            if name == '__name__':
+                return ci.name.split('.')[-1]
             c, fn = self._find(ci, name)
             if fn is not None:
                 k = c.method_kind(name)
@@ -811,7 +815,9 @@ class Folder:
                                               'rjust', 'partition', 'rpartition', 'splitlines', 'rsplit', 'casefold',
                                               'rfind', 'center'):
             return ('strmethod', obj, name)
-        if isinstance(obj, bytes) and name in ('decode', 'startswith', 'endswith', 'strip', 'rstrip', 'split', 'find'):
+        if isinstance(obj, (bytes, bytearray)) and name in ('decode', 'startswith', 'endswith', 'strip', 'rstrip', 'lstrip', 'split', 'rsplit', 'find', 'rfind', 'index', 'rindex',
+                                                             'partition', 'rpartition', 'replace', 'join', 'count', 'splitlines', 'hex', 'lower', 'upper', 'isdigit',
+                                                             'extend', 'append', 'clear', 'pop', 'removeprefix', 'removesuffix') and hasattr(obj, name):
             return ('strmethod', obj, name)
         if isinstance(obj, dict) and name in ('get', 'items', 'keys', 'values', 'update', 'pop', 'setdefault', 'copy', 'clear', 'popitem'):
             return ('strmethod', obj, name)
@@ -847,7 +853,9 @@ class Folder:
             return ('pyfunc', dict.fromkeys)
         if isinstance(obj, list) and name in ('append', 'index', 'count', 'pop', 'extend', 'insert', 'remove', 'clear', 'copy'):
             return ('strmethod', obj, name)
-        if isinstance(obj, set) and name in ('add', 'remove', 'discard', 'copy', 'union', 'issubset', 'pop', 'clear', 'update'):
+        if isinstance(obj, (set, frozenset)) and name in ('add', 'remove', 'discard', 'copy', 'union', 'issubset', 'pop', 'clear', 'update', 'difference', 'intersection',
+                                                          'symmetric_difference', 'isdisjoint', 'issuperset', 'difference_update', 'intersection_update',
+                                                          'symmetric_difference_update') and hasattr(obj, name):
             return ('strmethod', obj, name)
         if obj is None or isinstance(obj, (bool, int, float)):
             raise FoldRaise('AttributeError', f"'{type(obj).__name__}' object has no attribute '{name}'")
@@ -1427,8 +1435,15 @@ class Folder:
             return a == b
         if a is None or b is None or isinstance(a, bool) or isinstance(b, bool):
             return a is b
-        if isinstance(a, (int, str)) and isinstance(b, (int, str)):
-            return a == b and type(a) is type(b)
+        if isinstance(a, int) and isinstance(b, int):
+            if a == b and not (-5 <= a <= 256) and a is not b:
+                raise Unsupported('identity comparison of two equal integers outside the small-integer cache: the result depends on the implementation')
+            return a == b
+        if isinstance(a, (str, bytes, tuple, float)) and type(a) is type(b):
+            if a is b or a != b:
+                return a is b
+            # equal by value, different objects here: in CPython the answer depends on interning - not a fact about the program
+            raise Unsupported(f'identity comparison (`is`) of two equal {type(a).__name__} values: the result depends on interning')
         return a is b
 
     def _eval(self, e, env, mod: ModuleInfo, ci):
